@@ -145,7 +145,65 @@ def type_mapping(ctx):
 
 
 def obligations(ctx):
-    return string_cells(ctx) + type_mapping(ctx)
+    return string_cells(ctx) + type_mapping(ctx) + varbytes_lengths(ctx)
+
+
+def varbytes_lengths(ctx):
+    """string columns are written as one payload of concatenated values plus a length per row; the reader cuts the
+    payload by adding the lengths up, so each length has to be the number of bytes appended for that row"""
+    b = Builder(ctx, "write-column_group_builder-{impl#0}-finish.", "ColumnGroupBuilder::finish", {})
+    E = b.E
+    r = b.mk("B-3", "ColumnGroupBuilder::finish, VarBytes block: in every iteration the u32 pushed onto `lengths` is the byte length "
+                    "(slice / str / String ::len) of exactly the bytes appended to `payload` in that iteration - not a character "
+                    "count or the length of something else - otherwise every later value of the zone is cut at the wrong offset")
+    out = [b.results["B-3"]]
+    if not r:
+        return out
+
+    def named(ev, want):
+        a = ev.args[0] if ev.args else None
+        return isinstance(a, sym.Ref) and want in E.local_names(a.place.local)
+
+    pushes = [e for e in oblig.events(E, r"Vec::<u32>::push$|Vec::push$") if named(e, "lengths")]
+    exts = [e for e in oblig.events(E, r"Vec::<u8>::extend_from_slice$|Vec::extend_from_slice$") if named(e, "payload")]
+    if not oblig.need_anchor(r, pushes, "lengths.push(..) in the VarBytes block") or not oblig.need_anchor(r, exts, "payload.extend_from_slice(..)"):
+        return out
+    r.nontrivial = True
+    for p in pushes:
+        same = [x for x in exts if x.layer == p.layer and x.span and p.span and abs(x.span[1] - p.span[1]) <= 6]
+        if not same or len(p.args) < 2:
+            r.status = "inconclusive"
+            r.notes.append("no payload append next to a lengths.push")
+            return out
+        x = same[0]
+        appended = sym.describe(x.args[1])
+        src_x = E.trace(x.args[1], x.env, depth=6) | {appended}
+        src_p = E.trace(p.args[1], p.env, depth=8) | {sym.describe(p.args[1])}
+        # the pushed value is a term over call results: follow those calls to what they measured
+        if sym.is_term(p.args[1]):
+            by_label = {e.dest_label: e for e in E.events if e.dest_label}
+            for name in oblig.free_symbols(p.args[1]):
+                ev = by_label.get(name)
+                if ev is not None:
+                    src_p.add(ev.func.split("::<")[0] + "#")
+                    src_p.add(name)
+                    for a in ev.args:
+                        src_p |= E.trace(a, ev.env, depth=6) | {sym.describe(a)}
+        text_p = " ".join(src_p)
+        is_len = re.search(r"(slice|str|String|Vec)(::<.*?>)?::len#", text_p) or re.search(r"\blen#", text_p)
+        counted = re.search(r"chars|Chars|count|char_indices|graphemes|width", text_p)
+        # the value measured is the value appended, or both are views of the same string
+        root_x = {s_ for s_ in src_x if re.search(r"Iterator::next#\d+(@L\d+)?:Some\.0", s_)} | {appended}
+        shared = any(any(rx in s_ for rx in root_x) for s_ in src_p)
+        if counted or not is_len or not shared:
+            r.status = "violated"
+            r.witness = {"what": "the length recorded for a VarBytes value is " +
+                                 ("a character count" if counted else "not a byte length" if not is_len else "the length of something other than the bytes appended")
+                                 + f" (derives from {sorted(s_ for s_ in src_p if '::' in s_)[:3]}): a value with a multi-byte character is cut short and "
+                                   "every later value of the zone is read from the wrong offset",
+                         "span": f"{p.span[0]}:{p.span[1]}" if p.span else None, "call": "Vec::push", "path": [], "model": {}}
+            return out
+    return out
 
 
 def string_cells(ctx):
